@@ -105,9 +105,11 @@ type analyzer struct {
 	knownLeaks     map[string]bool
 	pub            *pubState
 	onceUsed       map[int]bool
+	ownedBy        map[*types.Named][]string
 	chanSites      map[ssa.Instruction][]*chanSite
 	chanAll        []*chanSite
 	chanClosed     map[string]bool
+	chanByFn       map[*ssa.Function][]*chanSite // close sites per function
 	traceMemo      map[*ssa.Function][][]pubEvent
 	traceBusy      map[*ssa.Function]bool
 	traceRaw       map[*ssa.Function][][]pubEvent
@@ -258,6 +260,7 @@ func fieldClass(owner *types.Named, f *types.Var, xt types.Type, pf *posFmt, pos
 type structInfo struct {
 	name    string   // pkg.Type
 	mutexes []string // lock classes pkg.Type.field of its sync.Mutex / sync.RWMutex fields
+	owned   bool     // the mutexes are those of the structs that contain objects of this type
 	spec    *guardSpec
 }
 
@@ -281,6 +284,12 @@ func (a *analyzer) structInfoOf(xt types.Type) *structInfo {
 		}
 		if len(mus) > 0 {
 			si = &structInfo{name: sname, mutexes: mus}
+			if sp, ok := a.cfg.Guarded[sname]; ok {
+				si.spec = &sp
+			}
+		} else if owners := a.ownedBy[key]; len(owners) > 0 {
+			// no mutex of its own, but its instances live in a field (map, slice, pointer) of a struct that has one
+			si = &structInfo{name: sname, mutexes: owners, owned: true}
 			if sp, ok := a.cfg.Guarded[sname]; ok {
 				si.spec = &sp
 			}
@@ -481,6 +490,7 @@ func (a *analyzer) prepare() {
 		}
 		a.callees[site] = out
 	}
+	a.prepareOwners()
 	a.preparePub()
 	a.prepareChans()
 	interesting := map[*ssa.Function]bool{}
@@ -681,6 +691,7 @@ func (a *analyzer) analyze(fn *ssa.Function, held []heldItem, virt bool, chain *
 func (a *analyzer) analyze0(fn *ssa.Function, held []heldItem, virt bool, chain *chainNode, env bindEnv) [][]heldItem {
 	key := ctxKey{fn, heldKey(held), virt, env.key()}
 	if s, ok := a.memo[key]; ok {
+		a.chanRevisit(fn, chain)
 		if s.done {
 			return s.exits
 		}
@@ -813,7 +824,7 @@ func dedupStates(sts []state) []state {
 }
 
 func (a *analyzer) step(fn *ssa.Function, ins ssa.Instruction, cur []state, virt bool, chain *chainNode, env bindEnv) []state {
-	a.chanVisit(ins, cur)
+	a.chanVisit(ins, cur, chain)
 	switch x := ins.(type) {
 	case *ssa.Call:
 		return a.doCall(fn, x, cur, virt, chain, "call", env)
@@ -885,7 +896,7 @@ func (a *analyzer) access(fn *ssa.Function, v ssa.Value, xt types.Type, idx int,
 	k := field + "|" + fn.String() + "|" + kind
 	fi := a.fieldInfo[field]
 	if fi == nil {
-		fi = &fieldFacts{owner: si.name, forced: forced}
+		fi = &fieldFacts{owner: si.name, forced: forced, owned: si.owned}
 		a.fieldInfo[field] = fi
 	}
 	fresh := freshObject(v)
@@ -893,6 +904,9 @@ func (a *analyzer) access(fn *ssa.Function, v ssa.Value, xt types.Type, idx int,
 		if virt || fresh {
 			a.guardedOK[k] = true
 			continue // constructor / object not yet published
+		}
+		if kind == "write" && a.record {
+			fi.writtenPlain = true
 		}
 		if kind != "read" && a.record {
 			fi.written = true
@@ -911,6 +925,9 @@ func (a *analyzer) access(fn *ssa.Function, v ssa.Value, xt types.Type, idx int,
 			}
 		}
 		if holdsGuard {
+			if kind == "write" && a.record {
+				fi.writtenHeld = true
+			}
 			a.guardedOK[k] = true
 			continue
 		}
@@ -925,16 +942,25 @@ func (a *analyzer) access(fn *ssa.Function, v ssa.Value, xt types.Type, idx int,
 
 // fieldFacts: what the walk learnt about one field of a mutex-bearing struct
 type fieldFacts struct {
-	owner     string
-	guard     string // a mutex of the struct seen held at an access
-	forced    bool   // listed in the configuration
-	heldSeen  bool   // accessed at least once with a mutex of its struct held
-	written   bool   // written (or its address taken) outside constructors
-	writtenAt string // one such site
+	owner        string
+	guard        string // a mutex of the struct seen held at an access
+	forced       bool   // listed in the configuration
+	heldSeen     bool   // accessed at least once with a mutex of its struct held
+	written      bool   // written (or its address taken) outside constructors
+	writtenAt    string // one such site
+	owned        bool   // field of a struct without a mutex whose instances live inside a struct with one
+	writtenHeld  bool   // written with a guarding mutex held
+	writtenPlain bool   // stored to (not merely address-taken) outside constructors
 }
 
 // guardedInferred: the field is treated as guarded by the mutex of its struct
-func (f *fieldFacts) guardedInferred() bool { return f.forced || (f.heldSeen && f.written) }
+func (f *fieldFacts) guardedInferred() bool {
+	if f.owned {
+		// owner-guarded: accessed at least once under the owner's mutex and stored to after construction
+		return f.forced || (f.heldSeen && f.writtenPlain)
+	}
+	return f.forced || (f.heldSeen && f.written)
+}
 
 func (a *analyzer) acquire(fn *ssa.Function, class int, pos token.Pos, s state, chain *chainNode) state {
 	for _, h := range s.held {
@@ -1400,6 +1426,9 @@ func (a *analyzer) run() {
 		}
 		trackedCaller := false
 		for _, c := range callers {
+			if r := c.Signature.Recv(); r != nil && isSyncType(r.Type(), "Once") {
+				continue // the function of a Once.Do is walked at the Do site, with the once class held
+			}
 			if !tracked(fnPkgPath(c)) {
 				return true, "callback"
 			}
@@ -1527,4 +1556,112 @@ func bindArgs(callee *ssa.Function, com *ssa.CallCommon, env bindEnv) bindEnv {
 		out[callee.Params[i+off]] = f
 	}
 	return out
+}
+
+// prepareOwners: struct types without a mutex whose objects are kept in a field (pointer, map, slice) of a
+// struct that has one: hls.SubSession in hls.ServerHandler.sessionMap, the sessions in logic.Group's sets,
+// pullProxy / pushProxy ...  Their fields may be guarded by the mutex of that owner.
+func (a *analyzer) prepareOwners() {
+	a.ownedBy = map[*types.Named][]string{}
+	hasMutex := func(st *types.Struct) bool {
+		for i := 0; i < st.NumFields(); i++ {
+			if isSyncType(st.Field(i).Type(), "Mutex", "RWMutex") {
+				return true
+			}
+		}
+		return false
+	}
+	var mention func(t types.Type, depth int, out map[*types.Named]bool)
+	mention = func(t types.Type, depth int, out map[*types.Named]bool) {
+		if depth > 2 {
+			return
+		}
+		switch x := types.Unalias(t).(type) {
+		case *types.Pointer:
+			mention(x.Elem(), depth, out)
+		case *types.Map:
+			mention(x.Key(), depth+1, out)
+			mention(x.Elem(), depth+1, out)
+		case *types.Slice:
+			mention(x.Elem(), depth+1, out)
+		case *types.Array:
+			mention(x.Elem(), depth+1, out)
+		case *types.Named:
+			if st, ok := x.Underlying().(*types.Struct); ok && x.Obj().Pkg() != nil && tracked(x.Obj().Pkg().Path()) && !hasMutex(st) {
+				out[x.Origin()] = true
+			}
+		}
+	}
+	for _, p := range a.prog.AllPackages() {
+		if !tracked(p.Pkg.Path()) {
+			continue
+		}
+		for _, mem := range p.Members {
+			tn, ok := mem.(*ssa.Type)
+			if !ok {
+				continue
+			}
+			n, ok := tn.Type().(*types.Named)
+			if !ok {
+				continue
+			}
+			st, ok := n.Underlying().(*types.Struct)
+			if !ok || !hasMutex(st) {
+				continue
+			}
+			sname := shortPkg(p.Pkg.Path()) + "." + n.Obj().Name()
+			var mus []string
+			for i := 0; i < st.NumFields(); i++ {
+				if isSyncType(st.Field(i).Type(), "Mutex", "RWMutex") {
+					mus = append(mus, sname+"."+st.Field(i).Name())
+				}
+			}
+			owned := map[*types.Named]bool{}
+			for i := 0; i < st.NumFields(); i++ {
+				if _, isNamed := types.Unalias(st.Field(i).Type()).(*types.Named); isNamed {
+					if _, isStruct := st.Field(i).Type().Underlying().(*types.Struct); isStruct {
+						continue // a by-value member is part of the struct itself, not an owned object
+					}
+				}
+				mention(st.Field(i).Type(), 0, owned)
+			}
+			for t := range owned {
+				a.ownedBy[t] = append(a.ownedBy[t], mus...)
+			}
+		}
+	}
+	// "only reachable through such a container": a type that a struct WITHOUT a mutex also keeps in a
+	// field (the remuxer inside CustomizePubSessionContext, a dump file ...) has instances the owner's
+	// mutex does not cover
+	for _, p := range a.prog.AllPackages() {
+		if !tracked(p.Pkg.Path()) {
+			continue
+		}
+		for _, mem := range p.Members {
+			tn, ok := mem.(*ssa.Type)
+			if !ok {
+				continue
+			}
+			n, ok := tn.Type().(*types.Named)
+			if !ok {
+				continue
+			}
+			st, ok := n.Underlying().(*types.Struct)
+			if !ok || hasMutex(st) {
+				continue
+			}
+			other := map[*types.Named]bool{}
+			for i := 0; i < st.NumFields(); i++ {
+				mention(st.Field(i).Type(), 0, other)
+			}
+			for t := range other {
+				if t != n.Origin() {
+					delete(a.ownedBy, t)
+				}
+			}
+		}
+	}
+	for t := range a.ownedBy {
+		sort.Strings(a.ownedBy[t])
+	}
 }
